@@ -106,7 +106,22 @@ std::string Name(const Cfg& c) {
          std::to_string(c.pre) + (c.late ? "l" : "") + (c.yield ? "y" : "") + "/" + kKinds[c.kind];
 }
 
+// Executions that end with a parked fiber (deadlock) abandon their fiber stacks; on a broken pool thousands of them
+// would exhaust the address space and crash the explorer before it can report.  Once 64 executions of this process
+// did not run to completion the remaining ones are skipped (their failures have been recorded already).
+int gStarted = 0;
+int gFinished = 0;
+
 void RunScenario(const Cfg& c) {
+  if (gStarted - gFinished >= 64) {
+    return;
+  }
+  ++gStarted;
+  struct Done {
+    ~Done() {
+      ++gFinished;
+    }
+  } done;
   Rec rec;
   rec.kind = c.kind;
   const int total = c.submitters * c.per + c.pre + (c.late ? 1 : 0);
